@@ -941,6 +941,10 @@ func culprit(t *pxy.Topo, g Group, s *Spec, symptom string, r *core.Rand) string
 
 func runPairsGroup(gi int, g Group, only string) {
 	specs := specsOf(g, gi)
+	pxy.MinQuiet = 0
+	if g.Fwd == "multiclient" {
+		pxy.MinQuiet = 40 * time.Millisecond
+	}
 	t, err := pxy.Build(pxy.Options{Proto: g.Proto, FwdKind: g.Fwd})
 	if err != nil {
 		id := fmt.Sprintf("g%03d", gi)
@@ -1054,6 +1058,10 @@ func runFailure(id string, fs FailSpec) {
 	inconclusive := func(why string) {
 		core.Add("failure_scenarios_inconclusive", 1)
 		core.Result(core.R{ID: id, Verdict: core.Inconclusive, What: why, Desc: fs, Sig: sig})
+	}
+	pxy.MinQuiet = 0
+	if fs.Fwd == "multiclient" {
+		pxy.MinQuiet = 40 * time.Millisecond
 	}
 	t, err := pxy.Build(pxy.Options{Proto: "raw", FwdKind: fs.Fwd})
 	if err != nil {
